@@ -376,4 +376,421 @@ theorem bodyClass_eq (i : Bytes) (h : Header) (hc : h.len ≤ i.length) :
     · exact bodyClass_other i h hc ht ht' _
 
 
+/-! ### settings, byte order, serialized headers -/
+
+theorem parseSettings_length (l : Bytes) : (parseSettings l).length = l.length / 6 := by
+  fun_induction parseSettings l with
+  | case1 a b c d e f rest ih =>
+    simp only [List.length_cons, ih]
+    omega
+  | case2 l hne =>
+    simp only [List.length_nil]
+    match l, hne with
+    | [], _ => rfl
+    | [_], _ => simp
+    | [_, _], _ => simp
+    | [_, _, _], _ => simp
+    | [_, _, _, _], _ => simp
+    | [_, _, _, _, _], _ => simp
+    | a :: b :: c :: d :: e :: f :: rest, hne => exact absurd rfl (hne a b c d e f rest)
+
+/-- every entry list `settings_frame` returns respects the allocation cap, on
+    the `frame_body` path and on the direct first-SETTINGS path alike -/
+theorem settingsFrame_cap {i : Bytes} {h : Header} {es : List (Nat × Nat)} {ack : Bool} {rest : Bytes}
+    (e : settingsFrame i h = .ok (.settings es ack) rest) :
+    es.length ≤ Consts.h2MaxSettingsEntries ∧ es.length = h.len / 6 ∧ h.len ≤ i.length := by
+  unfold settingsFrame at e
+  split at e
+  · cases e
+  · split at e
+    · cases e
+    · next hcap hlen =>
+      cases e
+      rw [parseSettings_length, List.length_take]
+      simp only [Consts.h2SettingsEntrySize, Consts.h2MaxSettingsEntries] at *
+      have : min h.len i.length = h.len := by omega
+      rw [this]
+      omega
+
+
+theorem mask31_eq (x : Nat) : mask31 x = x % 2147483648 := by
+  unfold mask31
+  have : Consts.h2StreamIdMask = 2 ^ 31 - 1 := by decide
+  rw [this, Nat.and_two_pow_sub_one_eq_mod]
+
+theorem mask31_lt (x : Nat) : mask31 x < 2147483648 := by
+  rw [mask31_eq]; omega
+
+theorem mask31_idem (x : Nat) : mask31 (mask31 x) = mask31 x := by
+  simp only [mask31_eq]; omega
+
+theorem beVal4 (a b c d : Nat) : beVal [a, b, c, d] = ((a * 256 + b) * 256 + c) * 256 + d := by
+  simp [beVal]
+
+theorem beVal3 (a b c : Nat) : beVal [a, b, c] = (a * 256 + b) * 256 + c := by
+  simp [beVal]
+
+theorem beVal_be32 (v : Nat) : beVal (be32 v) = v % 4294967296 := by
+  unfold be32; rw [beVal4]; omega
+
+theorem beVal_be24 (v : Nat) : beVal (be24 v) = v % 16777216 := by
+  unfold be24; rw [beVal3]; omega
+
+/-- what the parser reads back from a serialized header followed by anything -/
+theorem frameHeader_gen (h : Header) (rest : Bytes) (mfs : Nat) :
+    frameHeader (genFrameHeader h ++ rest) mfs =
+      if h.len % 16777216 > mfs then .fail FRAME_SIZE_ERROR
+      else if sidValid (convertFrameType (serializeFrameType h.ftype % 256)) (mask31 h.sid) = true then
+        .ok { len := h.len % 16777216, ftype := convertFrameType (serializeFrameType h.ftype % 256),
+              flags := h.flags % 256, sid := mask31 h.sid } rest
+      else .fail PROTOCOL_ERROR := by
+  have e : genFrameHeader h ++ rest =
+      (h.len / 65536 % 256) :: (h.len / 256 % 256) :: (h.len % 256) :: (serializeFrameType h.ftype % 256) ::
+      (h.flags % 256) :: (mask31 h.sid / 16777216 % 256) :: (mask31 h.sid / 65536 % 256) ::
+      (mask31 h.sid / 256 % 256) :: (mask31 h.sid % 256) :: rest := by
+    simp [genFrameHeader, be24, be32]
+  rw [e]
+  unfold frameHeader
+  have l3 : beVal [h.len / 65536 % 256, h.len / 256 % 256, h.len % 256] = h.len % 16777216 := beVal_be24 h.len
+  have l4 : beVal [mask31 h.sid / 16777216 % 256, mask31 h.sid / 65536 % 256, mask31 h.sid / 256 % 256,
+      mask31 h.sid % 256] = mask31 h.sid := by
+    have := beVal_be32 (mask31 h.sid)
+    have := mask31_lt h.sid
+    unfold be32 at *
+    omega
+  simp [l3, l4, mask31_idem]
+  have a : ¬ rest.length + 1 + 1 + 1 + 1 + 1 + 1 + 1 + 1 + 1 < 3 := by omega
+  have b : ¬ rest.length + 1 + 1 + 1 + 1 + 1 + 1 + 1 + 1 + 1 < 9 := by omega
+  simp only [a, b, if_false]
+
+theorem decode_of_ok {input : Bytes} {mfs : Nat} {h : Header} {rest rest' : Bytes} {f : Frame}
+    (e : frameHeader input mfs = .ok h rest) (e' : frameBody rest h = .ok f rest') :
+    decode input mfs = .ok h f (input.length - rest'.length) := by
+  unfold decode; simp only [e, e']
+
+
+/-! ### statement vocabulary and helper lemmas of the property theorems -/
+
+def typeByteOf (input : Bytes) : Nat := (input.drop 3).headD 0
+
+def flagsOf (input : Bytes) : Nat := (input.drop 4).headD 0
+
+def sidOf (input : Bytes) : Nat := mask31 (beVal ((input.drop 5).take 4))
+
+def payloadOf (input : Bytes) : Bytes := (input.drop 9).take (declaredLen input)
+
+def classify (t flags sid len mfs pad0 : Nat) : Outcome :=
+  if len > mfs then .error FRAME_SIZE_ERROR
+  else if sidValid (convertFrameType t) sid = false then .error PROTOCOL_ERROR
+  else bodyClass { len := len, ftype := convertFrameType t, flags := flags, sid := sid } pad0
+
+def outcome : Res → Option Outcome
+  | .ok _ _ _ => some .accept
+  | .err c => some (.error c)
+  | .incomplete => none
+
+/-- a frame type the serializer can be handed: the named ones, or an unknown
+    type byte that is not one of the named ones -/
+def FType.wf : FType → Prop
+  | .unknown t => t < 256 ∧ convertFrameType t = .unknown t
+  | _ => True
+
+theorem convert_serialize (ft : FType) (hw : ft.wf) :
+    convertFrameType (serializeFrameType ft % 256) = ft := by
+  cases ft with
+  | unknown t =>
+    obtain ⟨h1, h2⟩ := hw
+    simp only [serializeFrameType]
+    rw [Nat.mod_eq_of_lt h1, h2]
+  | _ => decide
+
+theorem parseSettings_genEntries (es : List (Nat × Nat))
+    (hw : ∀ e ∈ es, e.1 < 65536 ∧ e.2 < 4294967296) : parseSettings (genEntries es) = es := by
+  induction es with
+  | nil => rfl
+  | cons e r ih =>
+    obtain ⟨k, v⟩ := e
+    have hk := (hw (k, v) (by simp)).1
+    have hv := (hw (k, v) (by simp)).2
+    simp only at hk hv
+    have ihr := ih (fun e he => hw e (by simp [he]))
+    simp only [genEntries, be16, be32, List.cons_append, List.nil_append, parseSettings, ihr]
+    congr 2
+    · omega
+    · omega
+
+theorem genEntries_length (es : List (Nat × Nat)) : (genEntries es).length = 6 * es.length := by
+  induction es with
+  | nil => rfl
+  | cons e r ih => obtain ⟨k, v⟩ := e; simp [genEntries, be16, be32, ih]; omega
+
+/-- the value range of `H2Settings` (`u32` fields) -/
+def Settings.wf (s : Settings) : Prop :=
+  s.headerTableSize < 4294967296 ∧ s.maxConcurrentStreams < 4294967296 ∧ s.initialWindowSize < 4294967296 ∧
+  s.maxFrameSize < 4294967296 ∧ s.maxHeaderListSize < 4294967296
+
+/-- every counter within its threshold plus `slack` (the glitch counter may
+    additionally carry the unknown identifiers of one SETTINGS frame) -/
+def Flood.within (s : Flood) (slack : Nat) : Prop :=
+  s.rst ≤ s.cfg.maxRst + slack ∧ s.ping ≤ s.cfg.maxPing + slack ∧
+  s.pingLife ≤ Consts.h2DefaultMaxPingLifetime + slack ∧
+  s.settings ≤ s.cfg.maxSettings + slack ∧ s.settingsLife ≤ Consts.h2DefaultMaxSettingsLifetime + slack ∧
+  s.emptyData ≤ s.cfg.maxEmptyData + slack ∧ s.cont ≤ s.cfg.maxCont + slack ∧ s.wu0 ≤ s.cfg.maxWu0 + slack ∧
+  s.rstLife ≤ s.cfg.maxRstLife + slack ∧ s.rstAbusive ≤ s.cfg.maxRstAbusive + slack ∧
+  s.rstEmitted ≤ s.cfg.maxRstEmitted + slack ∧
+  s.glitch ≤ s.cfg.maxGlitch + Consts.h2MaxSettingsEntries + slack
+
+/-- events the connection can produce: a SETTINGS frame carries at most
+    `MAX_SETTINGS_ENTRIES` identifiers (`C15_settings_bounds`) -/
+def FloodOp.wf : FloodOp → Prop
+  | .settings k => k ≤ Consts.h2MaxSettingsEntries
+  | _ => True
+
+theorem flag_none {c t : Nat} (h : flag c t = none) : c ≤ t := by
+  unfold flag at h; split at h
+  · cases h
+  · omega
+
+theorem flag_some {c t : Nat} {v : Violation} (h : flag c t = some v) :
+    v.1 = ENHANCE_YOUR_CALM ∧ v.2.2 < v.2.1 := by
+  unfold flag at h; split at h
+  · cases h; exact ⟨rfl, by assumption⟩
+  · cases h
+
+theorem firstSome_none {l : List (Option Violation)} (h : firstSome l = none) : ∀ x ∈ l, x = none := by
+  induction l with
+  | nil => intro x hx; cases hx
+  | cons a r ih =>
+    cases a with
+    | some v => simp [firstSome] at h
+    | none =>
+      simp only [firstSome] at h
+      intro x hx
+      rcases List.mem_cons.mp hx with rfl | hx
+      · rfl
+      · exact ih h x hx
+
+theorem firstSome_some {l : List (Option Violation)} {v : Violation} (h : firstSome l = some v) : some v ∈ l := by
+  induction l with
+  | nil => simp [firstSome] at h
+  | cons a r ih =>
+    cases a with
+    | some w => simp only [firstSome] at h; rw [h]; exact List.mem_cons_self
+    | none => simp only [firstSome] at h; exact List.mem_cons_of_mem _ (ih h)
+
+theorem floodVerdict_none {s : Flood} (h : floodVerdict s = none) :
+    s.rst ≤ s.cfg.maxRst ∧ s.ping ≤ s.cfg.maxPing ∧ s.pingLife ≤ Consts.h2DefaultMaxPingLifetime ∧
+    s.settings ≤ s.cfg.maxSettings ∧ s.settingsLife ≤ Consts.h2DefaultMaxSettingsLifetime ∧
+    s.emptyData ≤ s.cfg.maxEmptyData ∧ s.cont ≤ s.cfg.maxCont ∧ s.wu0 ≤ s.cfg.maxWu0 ∧
+    s.accHdr ≤ s.cfg.maxHeaderList ∧ s.glitch ≤ s.cfg.maxGlitch := by
+  have := firstSome_none h
+  simp only [List.mem_cons, List.mem_nil_iff, or_false, forall_eq_or_imp, forall_eq] at this
+  obtain ⟨a, b, c, d, e, f, g, i, j, k⟩ := this
+  exact ⟨flag_none a, flag_none b, flag_none c, flag_none d, flag_none e, flag_none f, flag_none g,
+    flag_none i, flag_none j, flag_none k⟩
+
+theorem floodVerdict_some {s : Flood} {v : Violation} (h : floodVerdict s = some v) :
+    v.1 = ENHANCE_YOUR_CALM ∧ v.2.2 < v.2.1 := by
+  have := firstSome_some h
+  simp only [List.mem_cons, List.mem_nil_iff, or_false] at this
+  rcases this with e | e | e | e | e | e | e | e | e | e <;> exact flag_some e.symm
+
+theorem checkFlood_spec (s : Flood) :
+    (checkFlood s).1.cfg = s.cfg ∧ (checkFlood s).1.rst ≤ s.rst ∧ (checkFlood s).1.ping ≤ s.ping ∧
+    (checkFlood s).1.settings ≤ s.settings ∧ (checkFlood s).1.emptyData ≤ s.emptyData ∧
+    (checkFlood s).1.wu0 ≤ s.wu0 ∧ (checkFlood s).1.glitch ≤ s.glitch ∧
+    (checkFlood s).1.pingLife = s.pingLife ∧ (checkFlood s).1.settingsLife = s.settingsLife ∧
+    (checkFlood s).1.cont = s.cont ∧ (checkFlood s).1.accHdr = s.accHdr ∧
+    (checkFlood s).1.rstLife = s.rstLife ∧ (checkFlood s).1.rstAbusive = s.rstAbusive ∧
+    (checkFlood s).1.rstEmitted = s.rstEmitted ∧
+    ((checkFlood s).2 = none → floodVerdict (checkFlood s).1 = none) ∧
+    (∀ v, (checkFlood s).2 = some v → v.1 = ENHANCE_YOUR_CALM ∧ v.2.2 < v.2.1) := by
+  unfold checkFlood maybeResetWindow
+  simp only
+  split
+  · refine ⟨rfl, ?_, ?_, ?_, ?_, ?_, ?_, rfl, rfl, rfl, rfl, rfl, rfl, rfl, fun h => h, fun v h => floodVerdict_some h⟩ <;>
+      exact Nat.div_le_self _ _
+  · exact ⟨rfl, Nat.le_refl _, Nat.le_refl _, Nat.le_refl _, Nat.le_refl _, Nat.le_refl _, Nat.le_refl _,
+      rfl, rfl, rfl, rfl, rfl, rfl, rfl, fun h => h, fun v h => floodVerdict_some h⟩
+
+theorem wrapInc_le (c : Nat) : wrapInc c ≤ c + 1 := by
+  unfold wrapInc; exact Nat.mod_le _ _
+
+theorem satAdd32_le (c n : Nat) : satAdd32 c n ≤ c + n := by
+  unfold satAdd32; exact Nat.min_le_left _ _
+
+theorem satAdd64_le (c n : Nat) : satAdd64 c n ≤ c + n := by
+  unfold satAdd64; exact Nat.min_le_left _ _
+
+/-- a `check_flood` after the handler has bumped counters by at most one each
+    (lifetime RST counters untouched) -/
+theorem check_step (s t : Flood) (hc : t.cfg = s.cfg) (hi : s.within 0)
+    (b1 : t.rst ≤ s.rst + 1) (b2 : t.ping ≤ s.ping + 1) (b3 : t.pingLife ≤ s.pingLife + 1)
+    (b4 : t.settings ≤ s.settings + 1) (b5 : t.settingsLife ≤ s.settingsLife + 1)
+    (b6 : t.emptyData ≤ s.emptyData + 1) (b7 : t.cont ≤ s.cont + 1) (b8 : t.wu0 ≤ s.wu0 + 1)
+    (b9 : t.rstLife = s.rstLife) (b10 : t.rstAbusive = s.rstAbusive) (b11 : t.rstEmitted = s.rstEmitted)
+    (b12 : t.glitch ≤ s.glitch + 1) :
+    (checkFlood t).1.cfg = s.cfg ∧
+    ((checkFlood t).2 = none → (checkFlood t).1.within 0 ∧ (checkFlood t).1.glitch ≤ s.cfg.maxGlitch) ∧
+    (∀ v, (checkFlood t).2 = some v → v.1 = ENHANCE_YOUR_CALM ∧ v.2.2 < v.2.1 ∧ (checkFlood t).1.within 1) := by
+  obtain ⟨c0, c1, c2, c3, c4, c5, c6, c7, c8, c9, c10, c11, c12, c13, cn, cs⟩ := checkFlood_spec t
+  obtain ⟨i1, i2, i3, i4, i5, i6, i7, i8, i9, i10, i11, i12⟩ := hi
+  refine ⟨c0.trans hc, ?_, ?_⟩
+  · intro hn
+    obtain ⟨v1, v2, v3, v4, v5, v6, v7, v8, v9, v10⟩ := floodVerdict_none (cn hn)
+    simp only [Flood.within, Nat.add_zero, c0, hc] at *
+    refine ⟨⟨v1, v2, v3, v4, v5, v6, v7, v8, ?_, ?_, ?_, ?_⟩, v10⟩ <;> omega
+  · intro v hv
+    refine ⟨(cs v hv).1, (cs v hv).2, ?_⟩
+    simp only [Flood.within, c0, hc, Nat.add_zero] at *
+    refine ⟨?_, ?_, ?_, ?_, ?_, ?_, ?_, ?_, ?_, ?_, ?_, ?_⟩ <;> omega
+
+/-- the per-event step: without a violation every counter is back within its
+    threshold; with one, no counter is more than one frame over. -/
+theorem floodStep_spec (s : Flood) (op : FloodOp) (hop : op.wf) (hi : s.within 0) :
+    (floodStep s op).1.cfg = s.cfg ∧
+    ((floodStep s op).2 = none → (floodStep s op).1.within 0) ∧
+    (∀ v, (floodStep s op).2 = some v → v.1 = ENHANCE_YOUR_CALM ∧ v.2.2 < v.2.1 ∧ (floodStep s op).1.within 1) := by
+  have hi' := hi
+  obtain ⟨i1, i2, i3, i4, i5, i6, i7, i8, i9, i10, i11, i12⟩ := hi'
+  simp only [Nat.add_zero] at i1 i2 i3 i4 i5 i6 i7 i8 i9 i10 i11 i12
+  have L := Nat.le_succ
+  cases op with
+  | age ms =>
+    simp only [floodStep]
+    exact ⟨trivial, fun _ => hi, fun v h => by cases h⟩
+  | ping =>
+    simp only [floodStep]
+    have := check_step s { s with ping := wrapInc s.ping, pingLife := satAdd32 s.pingLife 1 } rfl hi
+      (L _) (wrapInc_le _) (satAdd32_le _ _) (L _) (L _) (L _) (L _) (L _) rfl rfl rfl (L _)
+    exact ⟨this.1, fun h => (this.2.1 h).1, this.2.2⟩
+  | emptyData =>
+    simp only [floodStep]
+    have := check_step s { s with emptyData := wrapInc s.emptyData } rfl hi
+      (L _) (L _) (L _) (L _) (L _) (wrapInc_le _) (L _) (L _) rfl rfl rfl (L _)
+    exact ⟨this.1, fun h => (this.2.1 h).1, this.2.2⟩
+  | wu0 =>
+    simp only [floodStep]
+    have := check_step s { s with wu0 := satAdd32 s.wu0 1 } rfl hi
+      (L _) (L _) (L _) (L _) (L _) (L _) (L _) (satAdd32_le _ _) rfl rfl rfl (L _)
+    exact ⟨this.1, fun h => (this.2.1 h).1, this.2.2⟩
+  | continuation len =>
+    simp only [floodStep]
+    have := check_step s { s with cont := wrapInc s.cont, accHdr := satAdd32 s.accHdr len } rfl hi
+      (L _) (L _) (L _) (L _) (L _) (L _) (wrapInc_le _) (L _) rfl rfl rfl (L _)
+    exact ⟨this.1, fun h => (this.2.1 h).1, this.2.2⟩
+  | glitch =>
+    simp only [floodStep]
+    have := check_step s { s with glitch := wrapInc s.glitch } rfl hi
+      (L _) (L _) (L _) (L _) (L _) (L _) (L _) (L _) rfl rfl rfl (wrapInc_le _)
+    exact ⟨this.1, fun h => (this.2.1 h).1, this.2.2⟩
+  | check =>
+    simp only [floodStep]
+    have := check_step s s rfl hi (L _) (L _) (L _) (L _) (L _) (L _) (L _) (L _) rfl rfl rfl (L _)
+    exact ⟨this.1, fun h => (this.2.1 h).1, this.2.2⟩
+  | headersStart len =>
+    simp only [floodStep]
+    refine ⟨by split <;> rfl, fun _ => ?_, fun v h => by cases h⟩
+    split
+    · exact hi
+    · exact hi
+  | headersEnd =>
+    simp only [floodStep, resetContinuation]
+    refine ⟨trivial, fun _ => ?_, fun v h => by cases h⟩
+    simp only [Flood.within, Nat.add_zero]
+    exact ⟨i1, i2, i3, i4, i5, i6, Nat.zero_le _, i8, i9, i10, i11, i12⟩
+  | rstEmitted =>
+    simp only [floodStep, recordRstEmitted]
+    have hle := satAdd64_le s.rstEmitted 1
+    refine ⟨trivial, fun hn => ?_, fun v hv => ⟨(flag_some hv).1, (flag_some hv).2, ?_⟩⟩
+    · have := flag_none hn
+      simp only [Flood.within, Nat.add_zero] at *
+      exact ⟨i1, i2, i3, i4, i5, i6, i7, i8, i9, i10, this, i12⟩
+    · simp only [Flood.within] at *
+      refine ⟨?_, ?_, ?_, ?_, ?_, ?_, ?_, ?_, ?_, ?_, ?_, ?_⟩ <;> omega
+  | settings k =>
+    simp only [floodStep]
+    have := check_step s { s with settings := wrapInc s.settings, settingsLife := satAdd32 s.settingsLife 1 } rfl hi
+      (L _) (L _) (L _) (wrapInc_le _) (satAdd32_le _ _) (L _) (L _) (L _) rfl rfl rfl (L _)
+    obtain ⟨hc, hn, hs⟩ := this
+    split
+    · next hsome =>
+      refine ⟨hc, fun h => ?_, hs⟩
+      rw [h] at hsome; cases hsome
+    · next hnone =>
+      have hn' : (checkFlood { s with settings := wrapInc s.settings, settingsLife := satAdd32 s.settingsLife 1 }).2 = none := by
+        cases h : (checkFlood { s with settings := wrapInc s.settings, settingsLife := satAdd32 s.settingsLife 1 }).2 with
+        | none => rfl
+        | some v => rw [h] at hnone; simp at hnone
+      obtain ⟨hw0, hg⟩ := hn hn'
+      refine ⟨hc, fun _ => ?_, fun v h => by cases h⟩
+      have hk : k ≤ Consts.h2MaxSettingsEntries := hop
+      have hmod := Nat.mod_le ((checkFlood { s with settings := wrapInc s.settings, settingsLife := satAdd32 s.settingsLife 1 }).1.glitch + k) U32
+      simp only [Flood.within, Nat.add_zero, hc] at *
+      obtain ⟨a1, a2, a3, a4, a5, a6, a7, a8, a9, a10, a11, a12⟩ := hw0
+      exact ⟨a1, a2, a3, a4, a5, a6, a7, a8, a9, a10, a11, by omega⟩
+  | rstReceived rs =>
+    simp only [floodStep]
+    have := check_step s { s with rst := wrapInc s.rst } rfl hi
+      (wrapInc_le _) (L _) (L _) (L _) (L _) (L _) (L _) (L _) rfl rfl rfl (L _)
+    obtain ⟨hc, hn, hs⟩ := this
+    split
+    · next hsome =>
+      refine ⟨hc, fun h => ?_, hs⟩
+      rw [h] at hsome; cases hsome
+    · next hnone =>
+      have hn' : (checkFlood { s with rst := wrapInc s.rst }).2 = none := by
+        cases h : (checkFlood { s with rst := wrapInc s.rst }).2 with
+        | none => rfl
+        | some v => rw [h] at hnone; simp at hnone
+      obtain ⟨hw0, _⟩ := hn hn'
+      generalize (checkFlood { s with rst := wrapInc s.rst }).1 = t at *
+      obtain ⟨a1, a2, a3, a4, a5, a6, a7, a8, a9, a10, a11, a12⟩ := hw0
+      simp only [Nat.add_zero] at a1 a2 a3 a4 a5 a6 a7 a8 a9 a10 a11 a12
+      have h1 := satAdd64_le t.rstLife 1
+      have h2 := satAdd64_le t.rstAbusive 1
+      simp only [recordRstLifetime]
+      refine ⟨hc, fun hnone2 => ?_, fun v hv => ?_⟩
+      · have := firstSome_none hnone2
+        simp only [List.mem_cons, List.mem_nil_iff, or_false, forall_eq_or_imp, forall_eq] at this
+        have f1 := flag_none this.1
+        have f2 := flag_none this.2
+        simp only [Flood.within, Nat.add_zero] at *
+        exact ⟨a1, a2, a3, a4, a5, a6, a7, a8, f1, f2, a11, a12⟩
+      · have := firstSome_some hv
+        simp only [List.mem_cons, List.mem_nil_iff, or_false] at this
+        have hf : v.1 = ENHANCE_YOUR_CALM ∧ v.2.2 < v.2.1 := by
+          rcases this with e | e <;> exact flag_some e.symm
+        refine ⟨hf.1, hf.2, ?_⟩
+        simp only [Flood.within] at *
+        refine ⟨?_, ?_, ?_, ?_, ?_, ?_, ?_, ?_, ?_, ?_, ?_, ?_⟩ <;> (try split) <;> omega
+
+theorem floodRun_spec (s : Flood) (ops : List FloodOp) (hops : ∀ op ∈ ops, op.wf) (hi : s.within 0) :
+    ((floodRun s ops).2 = none → (floodRun s ops).1.within 0) ∧
+    (∀ v, (floodRun s ops).2 = some v →
+      v.1 = ENHANCE_YOUR_CALM ∧ v.2.2 < v.2.1 ∧ (floodRun s ops).1.within 1) := by
+  induction ops generalizing s with
+  | nil => exact ⟨fun _ => hi, fun v h => by cases h⟩
+  | cons op r ih =>
+    obtain ⟨_, hn, hs⟩ := floodStep_spec s op (hops op List.mem_cons_self) hi
+    simp only [floodRun]
+    split
+    · next hsome =>
+      refine ⟨fun h => ?_, hs⟩
+      rw [h] at hsome; cases hsome
+    · next hnone =>
+      have hn' : (floodStep s op).2 = none := by
+        cases h : (floodStep s op).2 with
+        | none => rfl
+        | some v => rw [h] at hnone; simp at hnone
+      exact ih _ (fun o ho => hops o (List.mem_cons_of_mem _ ho)) (hn hn')
+
+theorem Flood.new_within (cfg : FloodCfg) : (Flood.new cfg).within 0 := by
+  simp [Flood.within, Flood.new]
+
+/-- small thresholds for the examples in `Props.lean` -/
+def cfgSmall : FloodCfg :=
+  { maxRst := 2, maxPing := 2, maxSettings := 2, maxEmptyData := 2, maxWu0 := 2, maxCont := 2, maxGlitch := 2,
+    maxRstLife := 5, maxRstAbusive := 3, maxRstEmitted := 3, maxHeaderList := 100 }
+
 end Sozu.H2Wire
